@@ -347,17 +347,26 @@ def run(index, rep, tier):
         for fi in index.methods_of(TNS):
             if "is_case_sensitive" not in fi.all_params:
                 continue
-            cfg = cfg_of(fi)
-            for n in cfg.nodes:
-                if n.kind == "test" and norm(n.ast) == "self.is_case_sensitive":
-                    npo += 1
-                    reach = cfg.reach([cfg.entry], follow_exc=False,
-                                      edge_ok=lambda s_, l_, d_: not (s_.kind == "test" and norm(s_.ast) == "is_case_sensitive is None" and l_ == "t"))
-                    ok = n not in reach
-                    rep.check(ok, "R10.9", fi.qualname, "namespace setting consulted although the call gave one", fn_where(fi, n.stmt),
-                              "%s consults self.is_case_sensitive only under `is_case_sensitive is None`" % fi.name,
-                              "%s consults the namespace's is_case_sensitive on a path where the caller's explicit is_case_sensitive was not None: an explicit False on a case-sensitive namespace (or True on an insensitive one) is ignored and lookups return the wrong members" % fi.qualname)
-        rep.floor("R10.9", "tests of self.is_case_sensitive in functions taking the argument", 2, npo)
+            # the statements that decide: top-level assignments to / tests of the argument
+            prefix = [st for st in fi.node.body if isinstance(st, (ast.If, ast.Assign)) and "is_case_sensitive" in names_in(st.test if isinstance(st, ast.If) else st)]
+            prefix = [st for st in prefix if not (isinstance(st, ast.Assign) and "is_case_sensitive" not in names_in(st.targets[0]))]
+            if not any(isinstance(st, ast.If) for st in prefix):
+                continue        # hands the argument on unchanged
+            npo += 1
+            sel = {}
+            for arg in (True, False, None):
+                for ns in (True, False):
+                    d = Decision(values={"is_case_sensitive": arg, "self.is_case_sensitive": ns})
+                    d.lenient = True
+                    d.run(prefix)
+                    last = [(st, taken) for st, taken in d.trace if "is_case_sensitive" in names_in(st.test)]
+                    sel[(arg, ns)] = (last[-1][0].lineno, last[-1][1]) if last else None
+            want_same = [((True, True), (True, False)), ((False, True), (False, False)), ((None, True), (True, True)), ((None, False), (False, False))]
+            bad = [(a, b) for a, b in want_same if sel[a] != sel[b]] + ([((True, True), (False, True))] if sel[(True, True)] == sel[(False, True)] else [])
+            rep.check(not bad, "R10.9", fi.qualname, "the call's is_case_sensitive does not override the namespace's: %s" % [(a, b) for a, b in bad][:2], fn_where(fi, prefix[0]),
+                      "%s: an explicit is_case_sensitive decides; the namespace's setting is used only for None" % fi.name,
+                      "%s decides case sensitivity wrongly for (argument, namespace setting) = %s: an explicit argument must override the namespace's own is_case_sensitive and None must defer to it - e.g. an explicit False on a case-sensitive namespace is ignored, so findall/get_taxa miss case variants and require_taxon creates a duplicate" % (fi.qualname, sorted(set(x for pair in bad for x in pair), key=str)))
+        rep.floor("R10.9", "functions deciding case sensitivity from their argument", 2, npo)
         folding_rule(index, rep, "R10.9")
         nc, caches = derived_cache_rule(index, rep, "R10.9", TM + ".Taxon")
         rep.floor("R10.9", "stores to a field that feeds a lazily computed cache of Taxon (%s)" % sorted(caches), 1, nc)
